@@ -433,41 +433,7 @@ func checkC18(p *Prog, l *Ledger) {
 				runMon(l, "C18/e-parentheses", "eval/Grouping", m, mon, "returns exactly the value and signal of its content")
 			}
 		}
-		// type tests on AST nodes outside the dispatch
-		allowed := map[string]string{
-			"parser.(*Parser).assignment":     "assignment-target switch (documented: only identifiers, element and property accesses are assignable)",
-			"parser.(*Parser).varDeclaration": "the `ধরি` line rule's literal test (documented exception)",
-			"interpreter.getLineNumber":       "line lookup for diagnostics",
-		}
-		ev := p.Interp().Eval
-		var sites []string
-		for _, fn := range p.ModuleFuncs() {
-			fk := p.FuncKey(fn)
-			instrsOf(fn, func(in ssa.Instruction) {
-				ta, ok := in.(*ssa.TypeAssert)
-				if !ok {
-					return
-				}
-				nt := namedOf(ta.AssertedType)
-				if nt == nil || nt.Obj().Pkg() == nil || nt.Obj().Pkg().Name() != "ast" {
-					return
-				}
-				if fn == ev {
-					if _, isParam := ta.X.(*ssa.Parameter); isParam {
-						return // the dispatch itself
-					}
-				}
-				key := fk + "#is(" + typeStr(ta.AssertedType) + ")"
-				sites = append(sites, key)
-				if why, ok := allowed[fk]; ok {
-					l.Discharge("C18/e-parentheses", key, p.InstrPos(in), why, true)
-				} else {
-					l.Violate("C18/e-parentheses", key, p.InstrPos(in), "a node-kind test outside eval's dispatch: a sub-expression is treated specially when it is syntactically a "+strings.TrimPrefix(typeStr(ta.AssertedType), "*ast.")+", so wrapping it in redundant parentheses (a Grouping node) — or producing the same value another way — changes behaviour")
-				}
-			})
-		}
-		sort.Strings(sites)
-		l.Extra["ast_type_tests_outside_dispatch"] = sites
+		checkNodeKindTests(p, l, "C18/e-parentheses")
 	}
 	// ---------------- (b) digit script
 	{
@@ -485,4 +451,44 @@ func checkC18(p *Prog, l *Ledger) {
 		}
 	}
 	l.Note("(f) never-executed code is not decided by any rule")
+}
+
+
+// checkNodeKindTests: no type test on an AST node outside eval's dispatch except at the documented places.
+// (Used by C18/e — parentheses — and by C16: behaviour must not depend on the syntactic form of an operand.)
+func checkNodeKindTests(p *Prog, l *Ledger, rule string) {
+	allowed := map[string]string{
+		"parser.(*Parser).assignment":     "assignment-target switch (documented: only identifiers, element and property accesses are assignable)",
+		"parser.(*Parser).varDeclaration": "the `ধরি` line rule's literal test (documented exception)",
+		"interpreter.getLineNumber":       "line lookup for diagnostics",
+	}
+	ev := p.Interp().Eval
+	var sites []string
+	for _, fn := range p.ModuleFuncs() {
+		fk := p.FuncKey(fn)
+		instrsOf(fn, func(in ssa.Instruction) {
+			ta, ok := in.(*ssa.TypeAssert)
+			if !ok {
+				return
+			}
+			nt := namedOf(ta.AssertedType)
+			if nt == nil || nt.Obj().Pkg() == nil || nt.Obj().Pkg().Name() != "ast" {
+				return
+			}
+			if fn == ev {
+				if _, isParam := ta.X.(*ssa.Parameter); isParam {
+					return // the dispatch itself
+				}
+			}
+			key := fk + "#is(" + typeStr(ta.AssertedType) + ")"
+			sites = append(sites, key)
+			if why, ok := allowed[fk]; ok {
+				l.Discharge(rule, key, p.InstrPos(in), why, true)
+			} else {
+				l.Violate(rule, key, p.InstrPos(in), "a node-kind test outside eval's dispatch: a sub-expression is treated specially when it is syntactically a "+strings.TrimPrefix(typeStr(ta.AssertedType), "*ast.")+", so wrapping it in redundant parentheses (a Grouping node) — or producing the same value another way — changes behaviour")
+			}
+		})
+	}
+	sort.Strings(sites)
+	l.Extra["ast_type_tests_outside_dispatch"] = sites
 }
